@@ -1,4 +1,5 @@
 CONSTANT Scenarios = {}
+CONSTANT Quirks = {}
 INIT MCInit
 NEXT Next
 INVARIANT JobsFifo
@@ -8,6 +9,7 @@ INVARIANT SettleOnce
 INVARIANT ReactionAfterSettle
 INVARIANT AwaitResumesOnce
 INVARIANT StructureOK
+INVARIANT GeneratorsOK
 INVARIANT EmitInv
 PROPERTY SettledIsStable
 CHECK_DEADLOCK FALSE
